@@ -63,6 +63,8 @@ struct Inner {
     /// remaining DiskFull failures (u32::MAX = forever)
     full_left: u32,
     log: Vec<Rec>,
+    /// names for which `create` replaced an existing file
+    replaced: Vec<String>,
 }
 
 #[derive(Clone, Default)]
@@ -80,6 +82,10 @@ impl TraceWalStore {
     /// Number of mutating I/O calls made so far.
     pub fn calls(&self) -> u64 {
         self.inner.lock().unwrap().log.len() as u64
+    }
+
+    pub fn replaced(&self) -> Vec<String> {
+        self.inner.lock().unwrap().replaced.clone()
     }
 
     pub fn log(&self) -> Vec<Rec> {
@@ -307,7 +313,9 @@ impl WalStore for TraceWalStore {
             )));
         }
         // like File::create: an existing file is truncated
-        g.files.insert(name.to_string(), FileSt::default());
+        if g.files.insert(name.to_string(), FileSt::default()).is_some() {
+            g.replaced.push(name.to_string());
+        }
         rec.ok = true;
         g.log.push(rec);
         Ok(TraceWriter {
